@@ -10,6 +10,7 @@ pub mod c07;
 pub mod c08;
 pub mod c09;
 pub mod c10;
+pub mod c11;
 pub mod c12;
 pub mod c13;
 pub mod c14;
@@ -20,7 +21,7 @@ pub mod c18;
 pub mod c19;
 pub mod c20;
 
-pub const ALL: &[&str] = &["C01", "C02", "C03", "C04", "C05", "C06", "C07", "C08", "C09", "C10", "C12", "C13", "C14", "C15", "C16", "C17", "C18", "C19", "C20"];
+pub const ALL: &[&str] = &["C01", "C02", "C03", "C04", "C05", "C06", "C07", "C08", "C09", "C10", "C11", "C12", "C13", "C14", "C15", "C16", "C17", "C18", "C19", "C20"];
 
 pub fn run(ctx: &Ctx) -> bool {
     match ctx.prop.as_str() {
@@ -34,6 +35,7 @@ pub fn run(ctx: &Ctx) -> bool {
         "C08" => c08::run(ctx),
         "C09" => c09::run(ctx),
         "C10" => c10::run(ctx),
+        "C11" => c11::run(ctx),
         "C12" => c12::run(ctx),
         "C13" => c13::run(ctx),
         "C14" => c14::run(ctx),
@@ -60,6 +62,7 @@ pub fn checks(id: &str) -> Vec<Box<dyn DynCheck>> {
         "C08" => c08::checks(),
         "C09" => c09::checks(),
         "C10" => c10::checks(),
+        "C11" => c11::checks(),
         "C12" => c12::checks(),
         "C13" => c13::checks(),
         "C14" => c14::checks(),
